@@ -280,13 +280,18 @@ class PusTc(AbstractSpacePacket):
         """
         tc_unpacked = cls.empty()
         tc_unpacked.sp_header = SpacePacketHeader.unpack(data=data)
-        tc_unpacked.pus_tc_sec_header = PusTcDataFieldHeader.unpack(
-            data=data[CCSDS_HEADER_LEN:]
-        )
-        header_len = CCSDS_HEADER_LEN + tc_unpacked.pus_tc_sec_header.get_header_size()
         expected_packet_len = tc_unpacked.packet_len
         if len(data) < expected_packet_len:
             raise BytesTooShortError(expected_packet_len, len(data))
+        header_len = CCSDS_HEADER_LEN + PusTcDataFieldHeader.get_header_size()
+        if expected_packet_len < header_len + 2:
+            raise ValueError(
+                f"packet length {expected_packet_len} too small to hold the PUS TC"
+                " secondary header and the CRC16"
+            )
+        tc_unpacked.pus_tc_sec_header = PusTcDataFieldHeader.unpack(
+            data=data[CCSDS_HEADER_LEN:]
+        )
         tc_unpacked._app_data = data[header_len : expected_packet_len - 2]
         tc_unpacked._crc16 = data[expected_packet_len - 2 : expected_packet_len]
         if CRC16_CCITT_FUNC(data[:expected_packet_len]) != 0:
